@@ -140,8 +140,17 @@ def run(res, tier, build_ok):
                     continue
                 reqs.append((name, kw, b, st, val,
                              "unm %s %s E%s" % (name, hx(b), ",".join("%s=i%d" % kv for kv in kw.items()))))
-    # the sense decoder
-    for b in bufs:
+    # the sense decoder: the hostile buffers above, plus descriptor-format sense with every descriptor type and
+    # ADDITIONAL LENGTH 0 / 1 / 2 / FFh, complete, cut after the descriptor header, and two descriptors in a row
+    sense_bufs = list(bufs)
+    for rc in (0x72, 0x73):
+        for dtype in range(256):
+            for alen in (0, 1, 2, 0xFF):
+                for have in sorted({0, min(alen, 3), min(alen, 12)}):
+                    d = bytes([dtype, alen]) + bytes([0xA5] * have)
+                    for body in (d, d + d):
+                        sense_bufs.append(bytes([rc, 0x05, 0x24, 0x00, 0, 0, 0, len(body)]) + body)
+    for b in sense_bufs:
         if len(b) == 0:
             continue
         st, val, lines = run_budgeted(lambda d: str(SCSICheckCondition(d)), bytearray(b), {}, A * len(b) + B)
